@@ -36,8 +36,8 @@ MANIFEST_ENTRY = {
         "document comparison. Trusted: Lean kernel, harness incl. its XML-patch applier, driver, shims."),
     "technique": "Lean 4 proof (slice characterisation, strict monotonicity of starts, loop cover/minimality lemmas) + model/implementation correspondence",
 }
-PROP_FILES = ["DashLive/Props/C09.lean", "DashLive/Props/GenTie.lean", "DashLive/Props/GenTieTimeline.lean"]
-LEAN_TARGETS = ["DashLive.Props.C09", "DashLive.Props.GenTie", "DashLive.Props.GenTieTimeline"]
+PROP_FILES = ["DashLive/Props/C09.lean", "DashLive/Props/GenTie.lean", "DashLive/Props/GenTieTimeline.lean", "DashLive/Props/Generated.lean"]
+LEAN_TARGETS = ["DashLive.Props.C09", "DashLive.Props.GenTie", "DashLive.Props.GenTieTimeline", "DashLive.Props.Generated"]
 
 
 def _gen_arith():
@@ -47,6 +47,8 @@ def _gen_arith():
     import gen_timeline
     gen_arith.main()
     gen_timeline.main()
+    import gen_liveindex
+    gen_liveindex.main()
 
 
 GENERATORS = [_gen_arith]
